@@ -103,8 +103,13 @@ impl Sanitizer {
             result = self.remove_leading_zeros(&result);
         }
 
-        if let Some(max_len) = self.max_length {
-            result.truncate(max_len);
+        let mut truncated = false;
+        if let Some(max_len) = self.max_length
+            && let Some((byte_idx, _)) = result.char_indices().nth(max_len)
+        {
+            // max_length counts characters; never cut inside a multi-byte character
+            result.truncate(byte_idx);
+            truncated = true;
         }
 
         if let Some(sep) = &self.separator {
@@ -112,6 +117,11 @@ impl Sanitizer {
                 .trim_start_matches(sep)
                 .trim_end_matches(sep)
                 .to_string();
+        }
+
+        // Truncation can turn "00b" into the all-digit segment "00"
+        if truncated && !self.keep_zeros {
+            result = self.remove_leading_zeros(&result);
         }
 
         result
